@@ -46,13 +46,13 @@ func init() {
 	mc.Register(&mc.Check{
 		ID:    "C12",
 		Level: "exploration",
-		Rule: "Cartesian product of viewBox width/height and target dx/dy over {2^e*m} (21 values quick, 48 thorough), 3 viewBox origins, 4x4 alignment fractions, for AspectMeet and AspectSlice; " +
+		Rule: "Cartesian product of viewBox width/height and target dx/dy over {2^e*m} (21 values quick, 48 thorough), 3 viewBox origins, 4x4 alignment fractions, for AspectMeet and AspectSlice, plus two extreme families (all dimensions ~2^64 resp. ~2^-80: products of two dimensions overflow resp. underflow float32 while every ratio stays moderate); " +
 			"every result compared with an exact (big.Rat / float64) reference fit. An outcome is the tuple (which dimension is constrained, sign of slack in x, sign of slack in y, method); " +
 			"non-trivial = aspect ratios differ so that slack or overflow is non-zero in one dimension",
 		Assumptions: []string{"linux/amd64 float32 semantics", "tolerance 2^-18 relative to max(target side, result extent) per axis"},
 		Units: func(tier string) int {
 			n := len(c12Dom(tier == "thorough"))
-			return n * n
+			return n*n + 2
 		},
 		Run:    c12Run,
 		Replay: c12Replay,
@@ -60,9 +60,42 @@ func init() {
 	})
 }
 
+// extreme families: every dimension huge (products of two overflow float32) or tiny (products
+// underflow to 0) while all aspect ratios stay moderate
+func c12Extreme(w *mc.W, e int) {
+	var dom []float32
+	for _, m := range []float64{1, 1.25, 1.75, 1.999} {
+		dom = append(dom, float32(math.Ldexp(m, e)))
+	}
+	for _, vw := range dom {
+		for _, vh := range dom {
+			for _, off := range []float32{0, float32(math.Ldexp(-3, e))} {
+				vb := ivg.ViewBox{MinX: off, MinY: off / 2, MaxX: off + vw, MaxY: off/2 + vh}
+				for _, dx := range dom {
+					for _, dy := range dom {
+						for _, ax := range c12Align {
+							for _, ay := range c12Align {
+								for _, slice := range []bool{false, true} {
+									cs := c12Case{VB: [4]uint32{f32b(vb.MinX), f32b(vb.MinY), f32b(vb.MaxX), f32b(vb.MaxY)},
+										DX: f32b(dx), DY: f32b(dy), AX: f32b(ax), AY: f32b(ay), Slice: slice, Exact: true}
+									c12Check(w, &cs)
+								}
+							}
+						}
+					}
+				}
+			}
+		}
+	}
+}
+
 func c12Run(w *mc.W, u int) {
 	dom := c12Dom(w.Thorough)
 	n := len(dom)
+	if u >= n*n {
+		c12Extreme(w, []int{64, -80}[u-n*n])
+		return
+	}
 	vw, vh := dom[u/n], dom[u%n]
 	for _, off := range c12Off {
 		vb := ivg.ViewBox{MinX: off, MinY: off / 2, MaxX: off + vw, MaxY: off/2 + vh}
